@@ -69,6 +69,11 @@ def main(tier):
     cases.append({"seed": 12, "dtype": "float32", "weights": "qint4", "activations": "qint8", "filter": None, "variants": [1], "directed": "shared",
                   "tree": {"t": "seq", "ch": [{"t": "conv", "cin": 4, "cout": 4, "k": 3, "stride": 1, "padding": 1, "dilation": 1, "groups": 1, "bias": True, "padding_mode": "zeros", "key": "c"},
                                               {"t": "relu"}, {"t": "ref", "to": "c"}]}})
+    # directed: a shared instance SELECTED THROUGH THE FILTER (by any one of its names): every name must point to the one quantized module
+    for k, fl in enumerate((["a"], ["b.0"], ["a", "c"])):
+        lin2 = {"t": "linear", "in": 8, "out": 8, "bias": True, "key": "s2"}
+        cases.append({"seed": 50 + k, "dtype": "float32", "weights": ["qint8", "qint4", "qfloat8"][k], "activations": None, "filter": fl, "variants": [0], "directed": "shared-filter",
+                      "tree": {"t": "dict", "ch": [["a", lin2], ["b", {"t": "seq", "ch": [{"t": "ref", "to": "s2"}, {"t": "relu"}]}], ["c", {"t": "linear", "in": 8, "out": 4, "bias": False}]]}})
     # directed: weight tying between an eligible module and one that must stay untouched (lm_head.weight is embedding.weight)
     for k, (wq_, aq_, dt_) in enumerate([("qint8", None, "float32"), ("qint4", "qint8", "float16")]):
         cases.append({"seed": 17 + k, "dtype": dt_, "weights": wq_, "activations": aq_, "filter": None, "variants": [0], "directed": "tied",
@@ -193,6 +198,8 @@ def main(tier):
             if "exn" in t:
                 ck.violation(f"quantized {kind} raised {t['exn']} in forward: {t['msg'][:120]}", tctx)
                 continue
+            if t.get("reused_input_object_ok") is False:
+                ck.violation(f"quantized {kind} fed the same input object again after it was overwritten in place returns something else than for a fresh tensor holding the same values (stale result keyed by object identity)", tctx)
             if "bad" in t:
                 ck.violation(f"quantized {kind}: {t['bad']}", tctx)
                 continue
